@@ -1275,3 +1275,123 @@ def ts9(P, C, floor=2):
     if n == 0:
         raise core.AnalysisBroken("TS-9: no key-array allocation found in write_key / remove_key")
     return n
+
+
+def ts10(P, C, floor=2):
+    """TS-10: a handler returns to the allocator only what was obtained."""
+    C.rule("TS-10", "in a catch handler, deallocate(p, n) of a local p that starts as nullptr and is assigned inside the try block is executed "
+           "only under a test that p is non-null: the handler also runs when an EARLIER statement of the try block threw, and an allocator "
+           "must only be handed back pointers it handed out (Allocator requirements; the release routine clear() tests every pointer before "
+           "it releases it — the sibling this contradicts). 'All memory obtained from its allocator is returned exactly once'", floor=floor)
+    n = 0
+    for f in sorted(P.functions.values(), key=lambda g: (g.file, g.line, g.qname)):
+        if f.unit != "driver" or f.cls != CLS:
+            continue
+        for t in f.walk():
+            if f.k(t) != "CXXTryStmt":
+                continue
+            tb = f.nodes[t]["tryBlock"]
+            assigned = {}
+            for x in f.walk(tb):
+                ap = assign_parts(f, x)
+                if ap and ap[1] is not None and f.k(f.strip(ap[0])) == "DeclRefExpr" and f.nodes[f.strip(ap[0])]["decl"].get("kind") == "Var":
+                    assigned.setdefault(f.nodes[f.strip(ap[0])]["decl"]["id"], x)
+            for h in f.nodes[t]["handlers"]:
+                for i, cal in f.calls(h):
+                    if not cal or cal["name"] != "deallocate":
+                        continue
+                    a = f.args(i)
+                    p = f.strip(a[0]) if a else -1
+                    if p < 0 or f.k(p) != "DeclRefExpr" or f.nodes[p]["decl"].get("id") not in assigned:
+                        continue
+                    vid = f.nodes[p]["decl"]["id"]
+                    # declared null?
+                    init_null = False
+                    for x in f.walk():
+                        if f.k(x) == "DeclStmt":
+                            for d in f.nodes[x]["decls"]:
+                                if d.get("id") == vid and d.get("init", -1) >= 0:
+                                    init_null = is_null(f, d["init"])
+                    if not init_null:
+                        continue
+                    guarded = False
+                    for anc in f.ancestors(i):
+                        if anc == h:
+                            break
+                        if f.k(anc) == "IfStmt" and i in set(f.walk(f.nodes[anc]["then"])):
+                            c, neg = core.cond_polarity(f, f.nodes[anc]["cond"])
+                            cn = f.nodes[c]
+                            if cn["k"] == "DeclRefExpr" and cn["decl"].get("id") == vid and not neg:
+                                guarded = True
+                            if cn["k"] == "BinaryOperator" and cn.get("op") == "!=" and not neg:
+                                sides = [f.strip(y) for y in cn["ch"]]
+                                if any(f.k(y) == "DeclRefExpr" and f.nodes[y]["decl"].get("id") == vid for y in sides) and any(is_null(f, y) for y in sides):
+                                    guarded = True
+                    n += 1
+                    C.ob("TS-10", fshort(f), "handler-releases-only-what-was-obtained:%s" % f.var_name(vid), guarded, f.loc(i),
+                         "deallocate(%s, …) in the handler runs only when %s is non-null" % (f.var_name(vid), f.var_name(vid)) if guarded else
+                         "deallocate(%s, …) in the handler also runs when the allocation of %s was never reached (an earlier allocate of the try block threw): "
+                         "a null pointer the allocator never handed out is handed back to it" % (f.var_name(vid), f.var_name(vid)))
+    return n
+
+
+def ts10b(P, C, floor=3):
+    """TS-10b: the key array is released only where there is one."""
+    C.rule("TS-10b", "deallocate(aux, naux) is executed only where the key array exists: under a test of aux (or of naux being non-zero), or after "
+           "an element aux[..] has been accessed on every path to it. An empty store has no array (aux == nullptr, naux == 0: TS-9), and the "
+           "allocator may only be handed back what it handed out", floor=floor)
+    n = 0
+    for f in sorted(P.functions.values(), key=lambda g: (g.file, g.line, g.qname)):
+        if f.unit != "driver" or f.cls != CLS:
+            continue
+        sites = []
+        for i, cal in f.calls():
+            if cal and cal["name"] == "deallocate" and f.args(i):
+                r = root_member(f, f.args(i)[0])
+                if r and r[0] == "aux" and r[1] == 0 and r[2] == "this":
+                    sites.append(i)
+        if not sites:
+            continue
+        pos = f.node_positions()
+        dom = f.dominators()
+
+        def at(x):
+            while x >= 0 and x not in pos:
+                x = f.parent[x]
+            return pos.get(x)
+        for i in sites:
+            pi = at(i)
+            how = None
+            for anc in f.ancestors(i):
+                if f.k(anc) == "IfStmt" and i in set(f.walk(f.nodes[anc]["then"])):
+                    c, neg = core.cond_polarity(f, f.nodes[anc]["cond"])
+                    conn, leaves = core.cond_leaves(f, c)
+                    for lf in ([c] if conn == "leaf" else leaves if conn == "&&" else []):
+                        l2, n2 = core.cond_polarity(f, lf)
+                        r = root_member(f, l2)
+                        if r and r[0] in ("aux", "naux") and r[1] == 0 and not (neg ^ n2):
+                            how = "under `if(%s)`" % f.render(f.nodes[anc]["cond"]).replace("this->", "")
+                        nn = f.nodes[l2]
+                        if nn["k"] == "BinaryOperator" and nn.get("op") in ("!=", "<") and not (neg ^ n2):
+                            sides = [f.strip(y) for y in nn["ch"]]
+                            if any(root_member(f, y) and root_member(f, y)[0] in ("aux", "naux") for y in sides) and any(f.nodes[y].get("cv") == 0 or is_null(f, y) for y in sides):
+                                how = "under `if(%s)`" % f.render(f.nodes[anc]["cond"]).replace("this->", "")
+            if how is None and pi:
+                # an element of the array was touched on every path to the release
+                for x in f.walk():
+                    if f.k(x) != "ArraySubscriptExpr":
+                        continue
+                    r = root_member(f, x)
+                    if not (r and r[0] == "aux" and r[2] == "this"):
+                        continue
+                    px = at(x)
+                    if not px or x in set(f.walk(i)):
+                        continue
+                    if (px[0] == pi[0] and px[1] < pi[1]) or (px[0] != pi[0] and px[0] in dom.get(pi[0], ())):
+                        how = "after %s at %s" % (f.render(x).replace("this->", ""), f.loc(x))
+                        break
+            n += 1
+            C.ob("TS-10b", fshort(f), "key-array-released-where-it-exists#%d" % n, how is not None, f.loc(i),
+                 "deallocate(aux, naux) %s" % how if how else
+                 "deallocate(aux, naux) is reached with an empty store as well (aux == nullptr, naux == 0): a null pointer the allocator never handed out is handed back to it")
+    return n
